@@ -10,6 +10,9 @@
 //	        | (f P)            the loader of ctx_P.Fork()  (Context.Fork creates a parented child loader); P >= 0
 //	        | (ts P)           px.NewTypeSetLoader(loader_P, TS) with the fixed type set TS = My {Foo = Integer[1,1],
 //	                           Bar = Integer[2,2]}; P >= 0; a LEAF (no node may be parented on it)
+//	        | (dep (xMOD L)*)  px.NewDependencyLoader over module loaders: each wraps loader_L (a (p …) or (f …) node declared before,
+//	                           no dependency loader among its ancestors) and answers ModuleName() = MOD; a dependency loader
+//	                           has no parent, (p D) / (f D) nodes may be parented on it; not together with (ts …) nodes
 //	NAME  ::= (n NS xNAME A)   px.NewTypedName2(NS, NAME, authority); A = r (runtime authority) | o (another authority)
 //	VAL   ::= (t N)            the type Integer[N,N]     (a fresh object every time: equality goes through Equals)
 //	        | (s N)            the String value "N"      (a non-Type that implements Equality)
@@ -66,6 +69,7 @@ type refState struct {
 	ts     []bool              // loader is a type-set loader: it binds the members of its type set (prefilled in own for
 	// the names of the line) and hands every definition to its parent
 	alias []map[string]bool // type-set loader → keys that are qualified paths (My::Foo) to a member, not member names
+	deps  [][]depMod        // loader → its module loaders when it is a dependency loader (dep.go), else nil
 }
 
 func newRef(parent []int, fold bool) *refState {
@@ -74,6 +78,7 @@ func newRef(parent []int, fold bool) *refState {
 		r.own = append(r.own, map[string]string{})
 		r.ts = append(r.ts, false)
 		r.alias = append(r.alias, map[string]bool{})
+		r.deps = append(r.deps, nil)
 	}
 	return r
 }
@@ -256,13 +261,19 @@ func tsNodes(tree sx.Sexp) []bool {
 	return ts
 }
 
-func parseLine(args []sx.Sexp) (parent []int, forked []bool, steps []stepT) {
+func parseLine(args []sx.Sexp) (parent []int, forked []bool, steps []stepT, deps [][]depMod) {
 	must(len(args) == 2 && args[0].Tag() == "tree" && args[1].Tag() == "steps", "shape")
 	isTS := tsNodes(args[0])
+	deps = parseDeps(args[0])
 	for i, nd := range args[0].Args() {
 		a := nd.Args()
 		if nd.Tag() == "st" && len(a) == 0 {
 			must(i == 0, "static loader elsewhere than at node 0")
+			parent = append(parent, -1)
+			forked = append(forked, false)
+			continue
+		}
+		if nd.Tag() == "dep" {
 			parent = append(parent, -1)
 			forked = append(forked, false)
 			continue
@@ -277,6 +288,7 @@ func parseLine(args []sx.Sexp) (parent []int, forked []bool, steps []stepT) {
 		forked = append(forked, nd.Tag() == "f")
 	}
 	must(len(parent) > 0, "empty tree")
+	checkDeps(args[0], parent, deps, isTS)
 	for _, s := range args[1].Args() {
 		a := s.Args()
 		must(len(a) >= 2, "step")
@@ -370,8 +382,8 @@ func exec(c px.Context, op string, args []sx.Sexp) (res core.Result) {
 			panic(e)
 		}
 	}()
-	parent, forked, steps := parseLine(args)
-	return run(c, parent, forked, tsNodes(args[0]), steps, hasStatic(args[0]))
+	parent, forked, steps, deps := parseLine(args)
+	return run(c, parent, forked, tsNodes(args[0]), steps, hasStatic(args[0]), deps)
 }
 
 // the fixed type set of every type-set loader node, resolved once in a throw-away fork (so that none of its types gets
@@ -414,9 +426,15 @@ type world struct {
 	ctxs    []px.Context
 }
 
-func build(parent []int, forked []bool, static bool, ts []bool, tset px.TypeSet) *world {
+func build(parent []int, forked []bool, static bool, ts []bool, tset px.TypeSet, deps [][]depMod) *world {
 	w := &world{}
 	for i, p := range parent {
+		if deps != nil && deps[i] != nil {
+			l := newDep(w, deps[i])
+			w.loaders = append(w.loaders, l)
+			w.ctxs = append(w.ctxs, pcore.NewContext(l, pcore.Logger()))
+			continue
+		}
 		if ts != nil && ts[i] {
 			l := px.NewTypeSetLoader(w.loaders[p], tset).(px.DefiningLoader)
 			w.loaders = append(w.loaders, l)
@@ -453,7 +471,7 @@ func (n nameT) tn() px.TypedName {
 // coreKey: the map keys of the core types a line may name
 var coreKeys = map[string]string{string(px.RuntimeNameAuthority) + "/type/integer": "integer"}
 
-func run(c px.Context, parent []int, forked []bool, ts []bool, steps []stepT, static bool) core.Result {
+func run(c px.Context, parent []int, forked []bool, ts []bool, steps []stepT, static bool, deps [][]depMod) core.Result {
 	anyTS := false
 	for _, b := range ts {
 		anyTS = anyTS || b
@@ -462,11 +480,21 @@ func run(c px.Context, parent []int, forked []bool, ts []bool, steps []stepT, st
 	if anyTS {
 		tset = typeSet(c)
 	}
-	w := build(parent, forked, static, ts, tset)
+	w := build(parent, forked, static, ts, tset, deps)
 	ref := newRef(parent, true)
 	exact := newRef(parent, false) // the same reference without case folding: only used to NAME a failure `case-split`
 	copy(ref.ts, ts)
 	copy(exact.ts, ts)
+	copy(ref.deps, deps)
+	copy(exact.deps, deps)
+	// a definition addressed to a dependency loader itself (it is not handed out as a DefiningLoader): the line is run and
+	// compared with the model, the property's reference has nothing to say about it
+	outside := false
+	for _, s := range steps {
+		if (s.op == "def" || s.op == "add") && deps[s.l] != nil {
+			outside = true
+		}
+	}
 
 	// the names of this line (the universe every observation ranges over), by canonical key
 	names := []nameT{}
@@ -546,6 +574,7 @@ func run(c px.Context, parent []int, forked []bool, ts []bool, steps []stepT, st
 			looked = true
 			var v interface{}
 			var ok bool
+			sticky := depCachedMiss(w, ref, s.l, s.name) // before the lookup
 			r := safely(func() { v, ok = px.Load(ctx, s.name.tn()) })
 			switch {
 			case r != "":
@@ -556,12 +585,24 @@ func run(c px.Context, parent []int, forked []bool, ts []bool, steps []stepT, st
 				out = "notfound"
 			}
 			want, wantX := "notfound", "notfound"
+			stickyWant := "notfound" // the resolution without the lazy binding a dependency loader owes to this lookup
 			if s.name.auth == string(px.RuntimeNameAuthority) { // a loader answers only for names of its own authority
-				if v, ok := ref.resolve(s.l, ref.key(s.name)); ok {
-					want = "found " + v
-				}
-				if v, ok := exact.resolve(s.l, exact.key(s.name)); ok {
-					wantX = "found " + v
+				if out == "reported PCORE_INVALID_CHARACTERS_IN_NAME" && illFormed(s.name) && ref.depRoot(s.l) >= 0 {
+					// a dependency loader may reject a name with a segment that is no identifier: a reported error, no trace
+					want, wantX = out, out
+				} else {
+					if v, ok := ref.resolve(s.l, ref.key(s.name)); ok {
+						stickyWant = "found " + v
+					}
+					// the first lookup that reaches a dependency loader binds the name there to what its dependencies bind
+					ref.lazyBind(s.l, s.name)
+					exact.lazyBind(s.l, s.name)
+					if v, ok := ref.resolve(s.l, ref.key(s.name)); ok {
+						want = "found " + v
+					}
+					if v, ok := exact.resolve(s.l, exact.key(s.name)); ok {
+						wantX = "found " + v
+					}
 				}
 			}
 			if out == "notfound" {
@@ -572,6 +613,11 @@ func run(c px.Context, parent []int, forked []bool, ts []bool, steps []stepT, st
 				if own, _, isMember := tsMember(ref.key(s.name)); ref.ts[s.l] && isMember && s.name.ns == "type" && out == "found "+own {
 					// the type set is asked for an unqualified member name before any ancestor
 					class = "typeset-member-before-ancestors"
+				}
+				if sticky && out == stickyWant {
+					// the dependency loader at the root of the chain answers the miss it cached earlier: the lookup behaves as if
+					// the dependencies bound nothing
+					class = "dep-miss-sticky"
 				}
 				setFail(class, fmt.Sprintf("%s: load answered %s, the reference resolves to %s", at, out, want))
 			}
@@ -706,6 +752,14 @@ func run(c px.Context, parent []int, forked []bool, ts []bool, steps []stepT, st
 		res.Pred = fail
 		res.NonTrivial = true
 	}
+	if outside {
+		res.Pred = "n/a"
+	}
+	for i := range deps {
+		if deps[i] != nil {
+			tags["tree:dep"] = true
+		}
+	}
 	for t := range tags {
 		res.Tags = append(res.Tags, t)
 	}
@@ -750,12 +804,30 @@ func observe(w *world, ref, exact *refState, names []nameT, at string, missed ma
 				class := "write-once-broken" // a binding changed or vanished
 				if !okW {
 					class = "resolve-wrong" // a binding nobody made
+				} else if !okG && e != nil && ref.deps[li] != nil {
+					class = "dep-miss-sticky" // the dependency loader kept a cached miss where the last lookup owed it a binding
 				} else if !okG && missed[fmt.Sprint(li, " ", k)] {
 					class = "miss-sticky"
 				}
-				setFail(classOr(class, okG == okX && got == wantX),
-					fmt.Sprintf("after %s: loader %d holds %q for %s, the reference %q", at, li, got, k, want))
+				if class != "dep-miss-sticky" {
+					class = classOr(class, okG == okX && got == wantX)
+				}
+				setFail(class, fmt.Sprintf("after %s: loader %d holds %q for %s, the reference %q", at, li, got, k, want))
 				return
+			}
+			if ref.depRoot(li) >= 0 {
+				// LoadEntry through a dependency loader writes (it binds lazily / caches the miss — a side effect the model
+				// would not see): only HasEntry is asked
+				var has bool
+				if r := safely(func() { has = l.HasEntry(n.tn()) }); r != "" {
+					setFail("fault", fmt.Sprintf("%s: HasEntry crashed", at))
+					return
+				}
+				if _, okW := ref.resolve(li, k); has != okW {
+					setFail("resolve-wrong", fmt.Sprintf("after %s: through loader %d (below a dependency loader) HasEntry(%s) = %v, the reference %v", at, li, k, has, okW))
+					return
+				}
+				continue
 			}
 			// resolution
 			var le px.LoaderEntry
@@ -885,6 +957,8 @@ func gen(g *core.G) {
 		rec3(nil)
 	}
 
+	genDep(g, maxLen)
+
 	// 2. random histories of length 40 (every third one: 3..8) over random trees of depth <= 3
 	r := g.Rng
 	names := []string{nm("type", "a", "r"), nm("type", "A", "r"), nm("type", "b", "r"), nm("type", "m::a", "r"), nm("type", "M::A", "r"),
@@ -930,6 +1004,29 @@ func gen(g *core.G) {
 			tree = append(tree, fmt.Sprintf("(ts %d)", r.Intn(nl)))
 			nl++
 		}
+		// a dependency loader over one to three of the loaders so far (never the static one), with up to two loaders below it
+		dep := -1
+		if !tsLeaf && r.Intn(3) == 0 {
+			first := 0
+			if static {
+				first = 1
+			}
+			var mods []string
+			for j, k := 0, 1+r.Intn(3); j < k; j++ {
+				mods = append(mods, fmt.Sprintf("(%s %d)", core.Pick(r, []string{"x6d", "x6d", "x6e", "x", "x4d"}), first+r.Intn(nl-first)))
+			}
+			tree = append(tree, "(dep "+strings.Join(mods, " ")+")")
+			dep = nl
+			nl++
+			for j, k := 0, r.Intn(3); j < k; j++ {
+				p := dep
+				if j == 1 && r.Intn(2) == 0 {
+					p = dep + 1
+				}
+				tree = append(tree, fmt.Sprintf("(%s %d)", core.Pick(r, []string{"p", "f"}), p))
+				nl++
+			}
+		}
 		// a few names per history so that they collide often
 		k := 2 + r.Intn(3)
 		local := make([]string, k)
@@ -945,6 +1042,10 @@ func gen(g *core.G) {
 				local[1] = core.Pick(r, []string{nm("type", "bar", "r"), nm("type", "My::Bar", "r"), nm("type", "foo", "o")})
 			}
 		}
+		if dep >= 0 {
+			// names that name a module (or none), one ill-formed
+			local[r.Intn(k)] = core.Pick(r, []string{nm("type", "m::a", "r"), nm("type", "M::A", "r"), nm("type", "n::a", "r"), nm("type", "x::a", "r"), nm("type", "m::1a", "r"), nm("type", "::m::a", "r")})
+		}
 		var steps []string
 		hl := 40
 		if i%3 == 0 {
@@ -956,6 +1057,9 @@ func gen(g *core.G) {
 			op := r.Intn(10)
 			if static && l == 0 && (op < 6 || op == 9) {
 				op = 6 + r.Intn(3) // the static loader is only asked
+			}
+			if l == dep && (op >= 3 && op <= 5 || op == 9) && r.Intn(40) != 0 {
+				op = r.Intn(3) // definitions addressed to the dependency loader itself are rare (outside the reference)
 			}
 			switch op {
 			case 0, 1, 2:
